@@ -41,9 +41,15 @@ def run(rep: common.Report, tier: str, seed: int):
     hist = {'layout': {}, 'samples': {}}
     base = pathlib.Path.cwd()
     for i in range(40 if quick else 400):
-        wd = base / f'w{i}'
-        wd.mkdir()
-        os.chdir(wd)                       # fresh directory: no stale fwarp.pkl
+        # every other case re-uses the previous directory after removing fwarp.pkl - the documented way to refresh the
+        # surface mapping: the new POS.txt must be the one that is followed
+        if i % 2 == 1:
+            wd = base / f'w{i - 1}'
+            (wd / 'fwarp.pkl').unlink(missing_ok=True)
+        else:
+            wd = base / f'w{i}'
+            wd.mkdir()
+        os.chdir(wd)                       # no stale fwarp.pkl
         Lx, Ly = rng.choice([(25, 10), (100, 50), (4, 2)])
         f, m2x, m2y = surface(rng, Lx, Ly)
         regular = rng.random() < 0.6
